@@ -285,8 +285,37 @@ def meta_data(meta):
             'edges': [[a, b, d.get('order')] for a, b, d in meta.edges(data=True)]}
 
 
-def run_resolver(M, text, last_all_atom=True, legacy=True, how='resolve'):
-    res = M.resolve.MoleculeResolver.from_string(text, last_all_atom=last_all_atom, legacy=legacy)
+def split_layers(text):
+    """('{base}', 'rest after the dot') of a layered string; the text may be symbolic (braces are concrete)"""
+    items = symx.SymStr.lift(text)._chs
+    for i, c in enumerate(items):
+        if isinstance(c, str) and c == '}':
+            return symx.SymStr.mk(items[:i + 1]), symx.SymStr.mk(items[i + 2:])
+    raise ValueError(text)
+
+
+def permuted_base_graph(M, base_text, entry):
+    """the base graph a library user may hand to MoleculeResolver.from_graph: same keys, attributes and edges as the reader's
+    graph, but built in another order ('graph_rev': nodes and edges inserted in reverse; 'graph_rot': starting from the
+    second node).  Node keys are the identity of the coarse nodes, the insertion order carries no meaning."""
+    g0 = M.read_cgsmiles.read_cgsmiles(base_text)
+    nodes = list(g0.nodes)
+    nodes = list(reversed(nodes)) if entry == 'graph_rev' else nodes[1:] + nodes[:1]
+    g = nx.Graph()
+    for n in nodes:
+        g.add_node(n, **g0.nodes[n])
+    edges = list(g0.edges(data=True))
+    for a, b, d in (reversed(edges) if entry == 'graph_rev' else edges):
+        g.add_edge(a, b, **d)
+    return g
+
+
+def run_resolver(M, text, last_all_atom=True, legacy=True, how='resolve', entry='string'):
+    if entry == 'string':
+        res = M.resolve.MoleculeResolver.from_string(text, last_all_atom=last_all_atom, legacy=legacy)
+    else:
+        base, rest = split_layers(text)
+        res = M.resolve.MoleculeResolver.from_graph(rest, permuted_base_graph(M, base, entry), last_all_atom=last_all_atom, legacy=legacy)
     if how == 'resolve':
         meta, mol = res.resolve()
     elif how == 'all':
